@@ -209,7 +209,8 @@ def check(ctx: Ctx, rep: Report):
                     rep.check(fresh, "C20.R2", "fresh:%s._settings" % ci.name, init.loc(n), "%s._settings is a new dict per instance" % ci.name,
                               bad="%s.__init__ binds _settings to %s, which is shared between instances" % (ci.name, norm(value)[:60]))
         # in-place mutation of class-level containers
-        class_level = {a for a, v in ci.class_attrs.items() if isinstance(v, (ast.Tuple, ast.List, ast.Dict, ast.Set))}
+        class_level = {a for a, v in ci.class_attrs.items() if isinstance(v, (ast.Tuple, ast.List, ast.Dict, ast.Set, ast.ListComp, ast.DictComp, ast.SetComp))
+                       or (isinstance(v, ast.Call) and norm(v.func) in ("dict", "list", "set", "defaultdict", "collections.defaultdict", "OrderedDict", "collections.OrderedDict", "deque", "collections.deque"))}
         for m in ci.methods.values():
             for n in ast.walk(m.node):
                 if isinstance(n, ast.Call) and isinstance(n.func, ast.Attribute) and n.func.attr in MUTATORS:
